@@ -4,3 +4,6 @@ import ClipperVerif.Driver.All
 import ClipperVerif.Props.C18
 import ClipperVerif.Props.C02
 import ClipperVerif.Props.C13Spec
+import ClipperVerif.Props.C01
+import ClipperVerif.Props.C05
+import ClipperVerif.Props.C13
